@@ -208,4 +208,99 @@ theorem fill_idempotent_firstfit_ascii (env : Env) (hsp : env.cw SP = 1) (mo : M
     (fun l hl => stable_of_fits_firstfit env hsp mo o hb halg hsep hii hsi l (hesc l hl) (hfit l hl) (hbare l hl))
   exact ⟨_, h2, h1⟩
 
+/-! ### both separators, coloured text, optimal-fit -/
+
+/-- a line on which the general path returns the single line holding all its fragments is stable
+    (empty indents, no trailing space) -/
+theorem stable_of_one_line (env : Env) (mo : MinimaOracle Int) (o : Opts) (hb : Builtin o.splitter)
+    (hii : o.initialIndent = []) (hsi : o.subsequentIndent = [])
+    (l : Text) (hts : l.getLast? ≠ some SP)
+    (hone : ∀ n, ∃ frs, pipeline env o l (o.width - displayWidth env.cw o.subsequentIndent) = some frs ∧
+      LastOk frs ∧ wrapSingleLineSlow env mo o l n = some (specLines o [frs] 0 n)) :
+    Stable env mo o l := by
+  intro n
+  unfold wrapSingleLine
+  have hind : (if n = 0 then o.initialIndent else o.subsequentIndent) = [] := by split <;> assumption
+  have hindent : TW.C05.indentOf o n = [] := hind
+  by_cases hc : blen l < o.width ∧ (if n = 0 then o.initialIndent else o.subsequentIndent).isEmpty = true
+  · rw [if_pos hc]
+    simp [LineD.render, TW.C05.trimEndSp_id l hts]
+  · rw [if_neg hc]
+    obtain ⟨frs, hp, hl, hslow⟩ := hone n
+    obtain ⟨c1, c2⟩ := pipeline_contig env o (builtin_inRange _ _ hb) l _ frs hp
+    have hnp := pipeline_noPen env o hb l _ frs hp
+    rw [hslow]
+    simp only [Option.map_some, Option.some.injEq]
+    rw [TW.C05.one_line_render env o l n frs c2 hl hnp c1, hindent, TW.C05.trimEndSp_id l hts]
+    rfl
+
+/-- **fill is idempotent, first-fit, both separators, coloured text**: when the lines of the
+    first result are safe (`SeqSafe`), free of line feeds, fit the width and do not end in a
+    space (for the ASCII separator the last is a theorem, `wrap_lines_bare`), and — Unicode
+    separator — the external break routine answers on them and obeys the LB7 clause -/
+-- @audit TW.C14.fill_idempotent_firstfit_safe
+theorem fill_idempotent_firstfit_safe (env : Env) (hsp : env.cw SP = 1) (mo : MinimaOracle Int)
+    (hmo : MoShape mo) (o : Opts) (hb : Builtin o.splitter) (halg : o.alg = .firstFit)
+    (hii : o.initialIndent = []) (hsi : o.subsequentIndent = [])
+    (t : Text) (ls : List Text) (hw : wrap env mo o t = some ls)
+    (hsafe : ∀ l ∈ ls, SeqSafe o.splitter l) (hno : ∀ l ∈ ls, LF ∉ l)
+    (hfit : ∀ l ∈ ls, displayWidth env.cw l ≤ o.width)
+    (hts : ∀ l ∈ ls, l.getLast? ≠ some SP)
+    (hpipe : ∀ l ∈ ls, ∃ frs, pipeline env o l (o.width - displayWidth env.cw o.subsequentIndent) = some frs)
+    (hlb : o.sep = .unicode → ∀ l ∈ ls, OppsNoSpace (stripAnsi l) (env.opps (stripAnsi l))) :
+    ∃ f, fill env mo o t = some f ∧ fill env mo o f = some f := by
+  have hne := TW.C09.wrap_nonempty env mo hmo o (builtin_inRange _ _ hb) t ls hw
+  have hstable : ∀ l ∈ ls, Stable env mo o l := by
+    intro l hl
+    apply stable_of_one_line env mo o hb hii hsi l (hts l hl)
+    intro n
+    obtain ⟨frs, hp⟩ := hpipe l hl
+    have hlast : LastOk frs := by
+      cases hs : o.sep with
+      | ascii => exact pipeline_lastOk_ascii env o hs (builtin_inRange _ _ hb) l _ frs hp
+      | unicode => exact pipeline_lastOk_unicode env o hs (builtin_inRange _ _ hb) l (hlb hs l hl) _ frs hp
+    have hindent : TW.C05.indentOf o n = [] := by
+      unfold TW.C05.indentOf; split <;> assumption
+    refine ⟨frs, hp, hlast, ?_⟩
+    exact TW.C05.fits_one_line_firstfit_safe env hsp mo o hb halg l (hsafe l hl) n frs hp
+      (by rw [hindent]; simp [displayWidth, dwFrom]; have := hfit l hl; unfold displayWidth at this; omega)
+  obtain ⟨h1, h2⟩ := fill_idempotent_of_stable env mo o t ls hw hne hno hstable
+  exact ⟨_, h2, h1⟩
+
+/-- **fill is idempotent, optimal-fit, whenever no line of the first result overflows**: any
+    penalties with `nline_penalty > 0` (the default's is, `C05.default_nline_pos`), the minima
+    routine conforming to its contract on the lines of the first result -/
+-- @audit TW.C14.fill_idempotent_optimal_safe
+theorem fill_idempotent_optimal_safe (env : Env) (hsp : env.cw SP = 1) (mo : MinimaOracle Int)
+    (hmo : MoShape mo) (o : Opts) (hb : Builtin o.splitter) (p : Penalties) (halg : o.alg = .optimalFit p)
+    (hP : 0 < p.nline) (hii : o.initialIndent = []) (hsi : o.subsequentIndent = [])
+    (t : Text) (ls : List Text) (hw : wrap env mo o t = some ls)
+    (hsafe : ∀ l ∈ ls, SeqSafe o.splitter l) (hno : ∀ l ∈ ls, LF ∉ l)
+    (hfit : ∀ l ∈ ls, displayWidth env.cw l ≤ o.width)
+    (hts : ∀ l ∈ ls, l.getLast? ≠ some SP)
+    (hpipe : ∀ l ∈ ls, ∃ frs, pipeline env o l (o.width - displayWidth env.cw o.subsequentIndent) = some frs ∧
+      ∀ n, TW.C05.MoConforms mo p frs
+        [if n = 0 then o.width - displayWidth env.cw o.initialIndent
+         else o.width - displayWidth env.cw o.subsequentIndent,
+         o.width - displayWidth env.cw o.subsequentIndent])
+    (hlb : o.sep = .unicode → ∀ l ∈ ls, OppsNoSpace (stripAnsi l) (env.opps (stripAnsi l))) :
+    ∃ f, fill env mo o t = some f ∧ fill env mo o f = some f := by
+  have hne := TW.C09.wrap_nonempty env mo hmo o (builtin_inRange _ _ hb) t ls hw
+  have hstable : ∀ l ∈ ls, Stable env mo o l := by
+    intro l hl
+    apply stable_of_one_line env mo o hb hii hsi l (hts l hl)
+    intro n
+    obtain ⟨frs, hp, hconf⟩ := hpipe l hl
+    have hlast : LastOk frs := by
+      cases hs : o.sep with
+      | ascii => exact pipeline_lastOk_ascii env o hs (builtin_inRange _ _ hb) l _ frs hp
+      | unicode => exact pipeline_lastOk_unicode env o hs (builtin_inRange _ _ hb) l (hlb hs l hl) _ frs hp
+    have hindent : TW.C05.indentOf o n = [] := by
+      unfold TW.C05.indentOf; split <;> assumption
+    refine ⟨frs, hp, hlast, ?_⟩
+    exact TW.C05.fits_one_line_optimal_safe env hsp mo o hb p halg hP l (hsafe l hl) n frs hp (hconf n)
+      (by rw [hindent]; simp [displayWidth, dwFrom]; have := hfit l hl; unfold displayWidth at this; omega)
+  obtain ⟨h1, h2⟩ := fill_idempotent_of_stable env mo o t ls hw hne hno hstable
+  exact ⟨_, h2, h1⟩
+
 end TW.C14
